@@ -49,3 +49,18 @@ Example check_equality_ex :
    check_equality ENull EUndefined false; check_equality ENull EUndefined true; check_equality (EBool true) (ENum (Fin false 1 0)) false]
   = [(true, true); (false, true); (true, true); (false, true); (true, true)].
 Proof. vm_compute. reflexivity. Qed.
+
+From V Require Import C03.TreeProofs2.
+(* join_left_assoc_equiv is about a real rotation: a || (b || c) becomes (a || b) || c, and a comma is hoisted *)
+Example join_left_ex :
+  join_left BLogOr (EBin BComma (EId 1 false false) (EId 2 false false)) (EBin BLogOr (EId 3 false false) (EId 4 false false))
+  = EBin BComma (EId 1 false false) (EBin BLogOr (EBin BLogOr (EId 2 false false) (EId 3 false false)) (EId 4 false false)).
+Proof. vm_compute. reflexivity. Qed.
+Example short_circuit_ex : short_circuit BLogOr.
+Proof. right; left; reflexivity. Qed.
+(* to_nullish_sound's hypotheses are satisfiable: operators returning numbers *)
+Example nullish_hyp_ex :
+  (forall (op : unop) (v : value) (t : nat) tr' w, (fun _ _ _ => (@nil Z, Val (VNum NaN))) op v t = (tr', Val w) -> nullish w = false).
+Proof. intros op v t tr' w H. inversion H. reflexivity. Qed.
+Example to_nullish_ex : to_nullish (EBin BComma (ECall (EId 1000 false false) [] 0 false) (EUn UVoid (EStr [97]) false)) = (true, false, true).
+Proof. vm_compute. reflexivity. Qed.
